@@ -1,4 +1,5 @@
 import MindsVerif.Lemmas.SelectSkel
+import MindsVerif.Lemmas.SelectCompose
 import MindsVerif.Props.C03
 import MindsVerif.Model.Lex
 import MindsVerif.Gen.Lex_sqlite
@@ -27,6 +28,10 @@ over 76 node classes; what is proved is layered:
   (the rules `select : ( select ) | ( union )` drop the grouping).
 * **L1 atoms**: C04 package (`Props/C04.lean`); here the two atom printers repaired in /repo as regression
   obligations: `C01_regress_parameter`, `C01_regress_variable`.
+
+* **L2 ∘ L3** `C01_partial_compose` (any payload parser / printer pair, payload round trip as hypothesis G2) and
+  `C01_partial_select_expr_<d>` (G2 discharged for operator expressions by `C03.roundtrip_<d>`): a whole SELECT
+  whose clause payloads are expression token lists round-trips.
 
 Glue between the layers that is NOT proved (named here, exercised by the round-trip oracle of
 `tools/props/c01.py` on the real code):
@@ -121,6 +126,33 @@ theorem C01_witness_union :
 theorem C01_partial_expr_sqlite : C03.RoundTrip Gen.Prec_sqlite.P := C03.roundtrip_sqlite
 theorem C01_partial_expr_mysql : C03.RoundTrip Gen.Prec_mysql.P := C03.roundtrip_mysql
 theorem C01_partial_expr_mindsdb : C03.RoundTrip Gen.Prec_mindsdb.P := C03.roundtrip_mindsdb
+
+/-! ## composition L2 ∘ L3 (glue G2 as a hypothesis, discharged for operator expressions) -/
+
+/-- **composed statement**: a SELECT whose payloads are texts parsed by `f` and printed by `g`: for every good
+record all of whose payloads round-trip through `g` / `f` (G2), parsing the printed statement gives the record back -/
+theorem C01_partial_compose {T E : Type} (c : Cfg E) (f : T → Option E) (g : E → T) (s : Sel E)
+    (hg : Good c s = true) (h : ∀ e ∈ s.payloads, f (g e) = some e) :
+    parseSelT c f (s.cte.map g) s.distinct (s.targets.map g) (s.clauses.map (Clause.map g)) = some s :=
+  compose_roundtrip c f g s hg h
+
+/-- L2 ∘ L3: payloads = operator expressions of a dialect (token lists parsed by the operator-precedence
+machine, printed with their stored parentheses flags).  Every good SELECT record whose payloads were produced by
+the expression parser round-trips as a whole. -/
+def SelectExprRT (P : OPM.Table) : Prop :=
+  ∀ (c : Cfg OPM.Expr) (s : Sel OPM.Expr), Good c s = true →
+    (∀ e ∈ s.payloads, ∃ toks, OPM.parse P toks [] none = some e) →
+    parseSelT c (fun toks => OPM.parse P toks [] none) (s.cte.map (OPM.print P)) s.distinct
+      (s.targets.map (OPM.print P)) (s.clauses.map (Clause.map (OPM.print P))) = some s
+
+theorem C01_partial_select_expr (P : OPM.Table) (hP : C03.RoundTrip P) : SelectExprRT P :=
+  fun c s hg h => compose_roundtrip c _ _ s hg (fun e he => by
+    obtain ⟨toks, ht⟩ := h e he
+    exact hP toks e ht)
+
+theorem C01_partial_select_expr_sqlite : SelectExprRT Gen.Prec_sqlite.P := C01_partial_select_expr _ C03.roundtrip_sqlite
+theorem C01_partial_select_expr_mysql : SelectExprRT Gen.Prec_mysql.P := C01_partial_select_expr _ C03.roundtrip_mysql
+theorem C01_partial_select_expr_mindsdb : SelectExprRT Gen.Prec_mindsdb.P := C01_partial_select_expr _ C03.roundtrip_mindsdb
 
 /-! ## L1 atoms repaired in /repo (fa4fc42, 6a738d8): regression obligations on the model of the printers
 (`Lex.parameterToString`, `Lex.variableToString` transcribe the repaired `get_string`s; the former defects —
